@@ -1,18 +1,34 @@
 (* Correspondence definitions for C19: run the write pipeline model on the histories the engine ran. *)
-From Coq Require Import List ZArith Bool.
+From Coq Require Import List ZArith Bool String.
 Import ListNotations.
-From GMS Require Import Store.C19Check.
+From GMS Require Import Store.C19Check Store.C19Scalar.
 Open Scope Z_scope.
 
 (* short constructors for the generated case files (arguments of type Z are read in Z scope) *)
 Definition V (z : Z) : option Z := Some z.
+Definition I8 := mkTy (-128) 127 false.
+Definition I16 := mkTy (-32768) 32767 false.
+Definition I32 := mkTy (-2147483648) 2147483647 false.
+Definition I64 := mkTy (-9223372036854775808) 9223372036854775807 false.
+Definition U8 := mkTy 0 255 true.
+Definition U16 := mkTy 0 65535 true.
+Definition U32 := mkTy 0 4294967295 true.
 
-(* statement, observed outcome, observed table contents afterwards (rows in id order) *)
-Inductive ev := Ev (s : stmt) (r : result) (t : table).
-Inductive case := Case (sch : list col) (chks : list check) (h : list ev).
+(* statement, observed outcome, observed warning count (None = not compared: strings in the statement, or a
+   statement kind whose warnings are not modelled), observed table contents afterwards (rows in id order) *)
+Inductive ev := Ev (s : stmt) (r : result) (w : option N) (t : table).
+Inductive case :=
+| Case (sch : list col) (chks : list check) (h : list ev)
+(* one DECIMAL(p,1) or VARCHAR(n) column: Store/C19Scalar.v *)
+| CaseD (p : Z) (chks : list dcheck) (h : list (dstmt * dres))
+| CaseS (n : nat) (chks : list scheck) (h : list (sstmt * sres)).
 
 Definition err_eqb (a b : err) : bool :=
-  match a, b with ENotNull, ENotNull => true | ECheck, ECheck => true | EInvalid, EInvalid => true | _, _ => false end.
+  match a, b with
+  | ENotNull, ENotNull | ECheck, ECheck | EInvalid, EInvalid | ERange, ERange | EDefNull, EDefNull
+  | EGenValue, EGenValue => true
+  | _, _ => false
+  end.
 Definition result_eqb (a b : result) : bool :=
   match a, b with ROk, ROk => true | RErr x, RErr y => err_eqb x y | _, _ => false end.
 
@@ -23,15 +39,23 @@ Fixpoint table_eqb (a b : table) : bool :=
   | _, _ => false
   end.
 
+Definition warn_ok (obs : option N) (model : N) : bool :=
+  match obs with None => true | Some n => N.eqb n model end.
+
 Fixpoint ok_from (sch : list col) (chks : list check) (t : table) (h : list ev) : bool :=
   match h with
   | [] => true
-  | Ev s r tobs :: h' =>
+  | Ev s r w tobs :: h' =>
       let '(t', r') := exec sch chks t s in
-      result_eqb r r' && table_eqb t' tobs && ok_from sch chks tobs h'
+      result_eqb r r' && table_eqb t' tobs && warn_ok w (stmt_warnings sch chks t s) && ok_from sch chks tobs h'
   end.
 
-Definition ok (c : case) : bool := match c with Case sch chks h => ok_from sch chks [] h end.
+Definition ok (c : case) : bool :=
+  match c with
+  | Case sch chks h => ok_from sch chks [] h
+  | CaseD p chks h => forallb (fun sr => dres_eqb (dexec p chks (fst sr)) (snd sr)) h
+  | CaseS n chks h => forallb (fun sr => sres_eqb (sexec n chks (fst sr)) (snd sr)) h
+  end.
 
 Definition mismatches (cs : list (N * case)) : list N :=
   map fst (filter (fun p => negb (ok (snd p))) cs).
